@@ -3,6 +3,7 @@
 //! /repo's working tree, and writes inputs + observations as Coq terms for the model side.
 mod out;
 mod rng;
+mod c01;
 mod c02;
 mod c05;
 mod c07;
@@ -11,6 +12,7 @@ mod c11;
 mod c12;
 mod c13;
 mod c14;
+mod c08;
 mod c10;
 pub mod modgen;
 mod c16;
@@ -20,6 +22,9 @@ mod gcprobe;
 mod vmgen;
 mod vmrun;
 mod c17;
+mod c15;
+mod c04;
+mod c09;
 
 use std::path::PathBuf;
 
@@ -33,6 +38,7 @@ pub struct Args {
 
 fn main() {
     let argv: Vec<String> = std::env::args().collect();
+    if argv.len() == 3 && argv[1] == "c04-worker" { c04::worker(&argv[2]); return; }
     if argv.len() < 3 && !(argv.len() == 2 && (argv[1] == "dump-stdlib" || argv[1] == "c10-witness")) {
         eprintln!("usage: harness gen <Cxx> --seed S --n N --tier quick|thorough --out DIR");
         std::process::exit(2);
@@ -40,6 +46,10 @@ fn main() {
     let cmd = argv[1].clone();
     if cmd == "c10-witness" { out::start_watchdog(); c10::witness(); return; }
     if cmd == "dump-stdlib" { print!("{}", modgen::dump_stdlib()); return; }
+    if cmd == "c01-obs" { c01::obs_child(&argv[2], argv.get(3).map(|s| s.as_str()).unwrap_or("")); return; }
+    if cmd == "c01-case" { c01::replay(&argv[2]); return; }
+    if cmd == "c09-obs" { c09::obs_child(&argv[2]); return; }
+    if cmd == "c09-case" { c09::replay(&argv[2]); return; }
     if cmd == "gcprobe" { gcprobe::run(&argv[2]); return; }
     if cmd == "probe" { if argv[2] == "handles" { probes::handles(); } else if argv[2] == "c02-guard-children" { probes::guard_children(); } else if argv[2] == "closure-labels" { probes::closure_labels(); } else { probes::run(&argv[2]); } return; }
     let mut a = Args { prop: argv[2].clone(), seed: 1, n: 300, tier: "quick".into(), out: PathBuf::from("work") };
@@ -56,6 +66,7 @@ fn main() {
     out::start_watchdog();
     if std::env::var("VM_PANICMSG").is_err() { std::panic::set_hook(Box::new(|_| {})); }
     match (cmd.as_str(), a.prop.as_str()) {
+        ("gen", "C01") => c01::gen(&a),
         ("gen", "C02") => c02::gen(&a),
         ("gen", "C05") => c05::gen(&a),
         ("gen", "C07") => c07::gen(&a),
@@ -63,12 +74,16 @@ fn main() {
         ("gen", "C12") => c12::gen(&a),
         ("gen", "C13") => c13::gen(&a),
         ("gen", "C14") => c14::gen(&a),
+        ("gen", "C08") => c08::gen(&a),
         ("gen", "C10") => c10::gen(&a),
         ("gen", "C16") => c16::gen(&a),
         ("gen", "C19") => c19::gen(&a),
         ("gen", "VM") | ("gen", "C03") | ("gen", "C18") => vmrun::gen(&a),
         ("replay", "VM") => vmrun::replay(&a),
         ("gen", "C17") => c17::gen(&a),
+        ("gen", "C15") => c15::gen(&a),
+        ("gen", "C04") => c04::gen(&a),
+        ("gen", "C09") => c09::gen(&a),
         _ => { eprintln!("unknown command/property"); std::process::exit(2); }
     }
 }
